@@ -40,4 +40,18 @@ MUTANTS = [
     ('c07-s3-metadata-key-stale', ['C07'], S3,
      "self._s3_facade.put_string(metadata_key, encode(recording.recording_metadata, unpicklable=True))",
      "self._s3_facade.put_string(metadata_key, encode(dict((k, v) for k, v in recording.recording_metadata.items() if v is not None), unpicklable=True))"),
+    # ---- C10
+    ('c10-mem-category-prefix', ['C10'], MEM, "if self.extract_recording_category(recording.id) != category:",
+     "if not self.extract_recording_category(recording.id).startswith(category):"),
+    ('c10-file-no-exact-category', ['C10'], FILE, "            if self.extract_recording_category(recording.id) != category:\n                continue\n", ""),
+    ('c10-s3-category-no-slash', ['C10'], S3, "id_prefixes = ['{}/'.format(category)]", "id_prefixes = ['{}'.format(category)]"),
+    ('c10-s3-prefix-no-slash', ['C15'], S3, "self.key_prefix = (key_prefix + '/') if key_prefix else ''", "self.key_prefix = key_prefix"),
+    ('c10-skip-incomplete-drops-none', ['C10'], LOOKUP, "metadata[TapeRecorder.INCOMPLETE_RECORDING] = [False, None]",
+     "metadata[TapeRecorder.INCOMPLETE_RECORDING] = [False]"),
+    ('c10-mem-limit-off-by-one', ['C10'], MEM, "result = result[:limit]", "result = result[:limit + 1]"),
+    ('c10-file-ignores-limit', ['C10'], FILE, "        if limit:\n            ids = ids[:limit]\n", ""),
+    ('c10-s3-id-from-parser', ['C10'], S3, "recording_id = key[len(metadata_key_prefix):]",
+     "recording_id = self._metadata_key_parser.parse(key).named['id']"),
+    ('c10-mem-filter-skipped-when-falsy-values', ['C10'], MEM, "            if metadata:\n                # Filter based on metadata if provided\n                if not TapeCassette",
+     "            if metadata and any(metadata.values()):\n                # Filter based on metadata if provided\n                if not TapeCassette"),
 ]
